@@ -55,17 +55,7 @@ def transformations(ctx: Ctx, e):
     return out
 
 
-def in_k1_class(e) -> bool:
-    """an O- or X-run whose flattened operand list contains a bare hint key and a bare format-constraint key"""
-    def walk(f):
-        if f[0] in T.OPS:
-            if f[0] in (T.OR, T.XOR):
-                kinds = {E.kind_of(a[1]) for a in f[1] if a[0] == "cond"}
-                if {"hint", "fc"} <= kinds:
-                    return True
-            return any(walk(a) for a in f[1])
-        return False
-    return walk(T.flat(e))
+in_k1_class = E.in_k1_class
 
 
 def outcome(i):
